@@ -380,6 +380,7 @@ pub fn parse_args() -> Result<Options, FilterRepoError> {
         ..Options::default()
     };
     let mut overrides = AnalyzeOverrides::default();
+    let mut refs_given = false;
     let mut it = args.into_iter();
     while let Some(arg) = it.next() {
         match arg.as_str() {
@@ -518,6 +519,11 @@ pub fn parse_args() -> Result<Options, FilterRepoError> {
             "--ref" | "--refs" => {
                 // --refs implies a partial rewrite
                 // so we do not run remote/cleanup behaviors by default.
+                if !refs_given {
+                    // The first explicit ref replaces the default `--all`
+                    opts.refs.clear();
+                    refs_given = true;
+                }
                 opts.refs
                     .push(require_arg_value(&mut it, "--ref requires value")?);
                 opts.partial = true;
